@@ -39,6 +39,8 @@ def key_of(e, clause):
         k += " [data scaled by 2^%d (X) / 2^%d (y), alpha by 2^%d]" % (e.get("xexp", 0), e["yexp"], e.get("aexp", 0))
     if e.get("yoff", 0) or (e["ev"] == "Pair" and abs(e.get("shift", 0)) >= 1 << 20):
         k += " [target offset >= 2^30]"
+    if e.get("maxIterClass") in ("tiny", "huge"):
+        k += " [max_iter %s]" % e["maxIterClass"]
     if e.get("entry") == "api":
         k += " [via api::SupervisedEstimator / Predictor]"
     return k
@@ -96,7 +98,8 @@ def run(ctx):
     v, bads = ctx.tlc_trace("linear/LassoTrace.tla", "linear/LassoTrace.cfg", f,
                             must_hit=("Valid_lasso_raw", "Valid_lasso_std", "Valid_enet_raw", "Valid_enet_std", "Invalid",
                                       "Pair_shift", "Pair_l1one", "ScaledDown", "ScaledUp",
-                                      "TargetOffset", "Invalid_api", "Invalid_inherent", "Valid_api"))
+                                      "TargetOffset", "Invalid_api", "Invalid_inherent", "Valid_api",
+                                      "MaxIter_tiny", "MaxIter_huge"))
     hits = v.get("hits", {})
     for (l, runid, ev, clause) in bads:
         e = events[l - 1]
@@ -122,7 +125,8 @@ def run(ctx):
         "n > 20, p > 6, |entries| > ~100 (32-bit TLC arithmetic); f32",
         "ElasticNet has no validation contract in the statement (only Lasso's table is checked)"]
     ctx.assumptions = ["'a small multiple of tol' is read as 8 tol; the true minimum is bounded above by min(P(0), P(w^))",
-                       "max_iter = 1000 (library default) for every valid setting; termination = fit returns within 20 s (4 s for the probes)",
+                       "max_iter = 1000 (library default) for the bulk; max_iter in {10^6, usize::MAX/2, usize::MAX} must behave like the default, "
+                       "max_iter in {1, 2} only 'returns coefficients or Err'; termination = fit returns within 20 s (4 s for the probes)",
                        "sigma_j enters the standardised L1 weight linearly and is bracketed by integer square roots inside the spec"]
     return ctx.finish(RULE, len(nt), exhaustive=False)
 
